@@ -69,6 +69,9 @@ theorem C28_shapes :
     countSitesAgree = true ∧ littleEndian = true ∧ resetRecognised = true ∧ initializeRecognised = true ∧
     sinkShapeRecognised = true ∧ sinkBounded = true ∧ sinkSticky = true ∧ sinkLimitIsEstimate = true ∧
     estimateIsBatchPlusOverhead = true ∧ overflowFrees = true ∧ returnsBytesWritten = true ∧ dictPathExact = true ∧
+    -- no allocator call the model does not have, and no allocator state outside the header bytes (so the byte-level
+    -- machine `cStep`, whose only state is the segment's memory, is the allocator of every handle on the segment)
+    allocateAndWriteExact = true ∧ allocatorStateIsHeaderOnly = true ∧ allocatorApiRecognised = true ∧
     -- the count field the accessors use is the `num_allocs` field of the header layout, the table starts right after
     -- the fixed header, and `MAX_ALLOCS` entries end inside the header
     countOffset = (headerFields.take 3).sum ∧ countWidth = headerFields.getD 3 0 ∧ tableBase = headerFields.sum ∧
